@@ -182,7 +182,7 @@ func cwInv(cw *CodeWriter) bool {
 // mapper's state. Options (PrettyPrint, IndentString, WriteSemicolons, the Mapper pointer) and the tree are not in it.
 //@ group cwFrame
 //@   requires [cw] cw != nil && cwInv(cw) && J(cw) && NoFusion(cw)
-//@   modifies cw.Builder, cw.pendings, cw.IndentLevel, cw.lastByte, cw.semiOmitted
+//@   modifies cw.Builder, cw.pendings, cw.IndentLevel, cw.lastByte, cw.semiOmitted, cw.deferred
 //@   modifies cw.Mapper.generatedLine, cw.Mapper.generatedColumn, cw.Mapper.mappings, cw.Mapper.names, cw.Mapper.nameIndex[*]
 //@   ensures [cwinv@C06,C08] cwInv(cw)
 //@   ensures [J@C08] J(cw)
@@ -193,14 +193,45 @@ func cwInv(cw *CodeWriter) bool {
 //@   ensures [no-output@C06] eq(cw.Builder, old(cw.Builder))
 //@   ensures [no-mapping@C08] cw.Mapper == nil || sourcemap.NumMappings(cw.Mapper) == old(sourcemap.NumMappings(cw.Mapper))
 //@   ensures [compact.noop@C06] implies(!cw.PrettyPrint, len(cw.pendings) == 0 && cw.IndentLevel == old(cw.IndentLevel))
+//@   ensures [request-kept@C08] cw.deferred == old(cw.deferred)
 
-// emit = append to the buffer and advance the mapper over the same text.
+// pointsAt: mapping i points at the source position (and carries the name) that was requested.
+func pointsAt(cw *CodeWriter, i int, d deferredMapping) bool {
+	return sourcemap.MappingAt(cw.Mapper, i).SourceLine == d.line && sourcemap.MappingAt(cw.Mapper, i).SourceColumn == d.column && sourcemap.MappingAt(cw.Mapper, i).HasName == d.named &&
+		implies(d.named, sourcemap.NameAt(cw.Mapper, sourcemap.MappingAt(cw.Mapper, i).NameIndex) == d.name)
+}
+
+// startOf: the generated position of mapping i.
+func startOf(cw *CodeWriter, i int) gpos {
+	return gpos{line: sourcemap.MappingAt(cw.Mapper, i).GeneratedLine, col: sourcemap.MappingAt(cw.Mapper, i).GeneratedColumn}
+}
+
+// here: the mapper's cursor.
+func here(cw *CodeWriter) gpos {
+	return gpos{line: sourcemap.GenLine(cw.Mapper), col: sourcemap.GenCol(cw.Mapper)}
+}
+
+// emit = layout text and comments: append to the buffer and advance the mapper over the same text; never a mapping.
 //@ func (cw *CodeWriter) emit(s)
 //@   props C08 C06 C15 C11
 //@   use cwFrame
-//@   ensures [mechanism@C08,C14] fullSeq(evOpt(len(s) > 0, evCall("(*CodeWriter).separateSigns")), evOpt(len(s) > 0 && cw.Mapper != nil, evCall("(*SourceMapper).AdvanceString"))) && implies(len(s) > 0 && cw.Mapper != nil, callArg[string]("(*SourceMapper).AdvanceString", 0, 1) == s)
+//@   ensures [mechanism@C08,C14] fullSeq(evCall("(*CodeWriter).write")) && callArg[string]("(*CodeWriter).write", 0, 1) == s && !callArg[bool]("(*CodeWriter).write", 0, 2)
 //@   ensures [pendings] eq(cw.pendings, old(cw.pendings)) && cw.IndentLevel == old(cw.IndentLevel)
 //@   ensures [no-mapping@C08] cw.Mapper == nil || sourcemap.NumMappings(cw.Mapper) == old(sourcemap.NumMappings(cw.Mapper))
+//@   ensures [request-kept@C08] cw.deferred == old(cw.deferred)
+//@   ensures [written@C06] implies(len(s) > 0, !cw.semiOmitted) && implies(len(s) == 0, cw.semiOmitted == old(cw.semiOmitted))
+
+// write = a separating space if needed, then (for a token) the requested mapping, then the text; the mapper advances
+// over the same text. The mapping therefore lies exactly at the first character of the token.
+//@ func (cw *CodeWriter) write(s, isToken)
+//@   props C08 C06 C15 C11 C14
+//@   use cwFrame
+//@   ensures [mechanism@C08,C14] fullSeq(evOpt(len(s) > 0, evCall("(*CodeWriter).separateSigns")), evOpt(len(s) > 0 && isToken, evCall("(*CodeWriter).commitMapping")), evOpt(len(s) > 0 && cw.Mapper != nil, evCall("(*SourceMapper).AdvanceString"))) && implies(len(s) > 0 && cw.Mapper != nil, callArg[string]("(*SourceMapper).AdvanceString", 0, 1) == s)
+//@   ensures [pendings] eq(cw.pendings, old(cw.pendings)) && cw.IndentLevel == old(cw.IndentLevel)
+//@   ensures [no-mapping@C08] implies(cw.Mapper != nil && !(isToken && len(s) > 0 && old(cw.deferred.set)), sourcemap.NumMappings(cw.Mapper) == old(sourcemap.NumMappings(cw.Mapper)))
+//@   ensures [recorded@C08] implies(cw.Mapper != nil && isToken && len(s) > 0 && old(cw.deferred.set), sourcemap.NumMappings(cw.Mapper) == old(sourcemap.NumMappings(cw.Mapper))+1 && pointsAt(cw, old(sourcemap.NumMappings(cw.Mapper)), old(cw.deferred)) && gposStr(startOf(cw, old(sourcemap.NumMappings(cw.Mapper))), s) == here(cw))
+//@   ensures [request-kept@C08] implies(!isToken, cw.deferred == old(cw.deferred))
+//@   ensures [request-used@C08] implies(isToken && cw.Mapper != nil, !cw.deferred.set)
 //@   ensures [written@C06] implies(len(s) > 0, !cw.semiOmitted) && implies(len(s) == 0, cw.semiOmitted == old(cw.semiOmitted))
 
 // separateSigns writes a space exactly when the next token would fuse with the last byte written.
@@ -226,13 +257,15 @@ func cwInv(cw *CodeWriter) bool {
 //@   use cwFrame
 //@   ensures [pendings] eq(cw.pendings, old(cw.pendings)) && cw.IndentLevel == old(cw.IndentLevel)
 //@   ensures [no-mapping@C08] cw.Mapper == nil || sourcemap.NumMappings(cw.Mapper) == old(sourcemap.NumMappings(cw.Mapper))
+//@   ensures [request-kept@C08] cw.deferred == old(cw.deferred)
 
 //@ func (cw *CodeWriter) writeIndent()
 //@   props C06 C08 C15 C11
 //@   use cwFrame
-//@   loop 1 invariant [frame] cwInv(cw) && J(cw) && NoFusion(cw) && eq(cw.pendings, old(cw.pendings)) && cw.IndentLevel == old(cw.IndentLevel) && (cw.Mapper == nil || sourcemap.NumMappings(cw.Mapper) == old(sourcemap.NumMappings(cw.Mapper)))
+//@   loop 1 invariant [frame] cwInv(cw) && J(cw) && NoFusion(cw) && eq(cw.pendings, old(cw.pendings)) && cw.IndentLevel == old(cw.IndentLevel) && (cw.Mapper == nil || sourcemap.NumMappings(cw.Mapper) == old(sourcemap.NumMappings(cw.Mapper))) && cw.deferred == old(cw.deferred)
 //@   ensures [pendings] eq(cw.pendings, old(cw.pendings)) && cw.IndentLevel == old(cw.IndentLevel)
 //@   ensures [no-mapping@C08] cw.Mapper == nil || sourcemap.NumMappings(cw.Mapper) == old(sourcemap.NumMappings(cw.Mapper))
+//@   ensures [request-kept@C08] cw.deferred == old(cw.deferred)
 
 // flushPending writes each deferred layout character once, in order (a tab stands for the current indentation), then
 // forgets them.
@@ -242,30 +275,35 @@ func cwInv(cw *CodeWriter) bool {
 //@   loop 1 before [mechanism@C06] fullSeq()
 //@   loop 1 each [mechanism@C06] fullSeq(evOpt(ch == '\t', evCall("(*CodeWriter).writeIndent")), evOpt(ch != '\t', evCall("(*CodeWriter).emit")))
 //@   ensures [mechanism@C06] fullSeq(evCall("(*CodeWriter).clearPending"))
-//@   loop 1 invariant [frame] cwInv(cw) && J(cw) && NoFusion(cw) && cw.IndentLevel == old(cw.IndentLevel) && eq(cw.pendings, old(cw.pendings)) && (cw.Mapper == nil || sourcemap.NumMappings(cw.Mapper) == old(sourcemap.NumMappings(cw.Mapper))) && implies(!cw.PrettyPrint, eq(cw.Builder, old(cw.Builder)))
+//@   loop 1 invariant [frame] cwInv(cw) && J(cw) && NoFusion(cw) && cw.IndentLevel == old(cw.IndentLevel) && eq(cw.pendings, old(cw.pendings)) && (cw.Mapper == nil || sourcemap.NumMappings(cw.Mapper) == old(sourcemap.NumMappings(cw.Mapper))) && cw.deferred == old(cw.deferred) && implies(!cw.PrettyPrint, eq(cw.Builder, old(cw.Builder)))
 //@   ensures [flushed] len(cw.pendings) == 0 && cw.IndentLevel == old(cw.IndentLevel)
 //@   ensures [compact.nothing@C06] implies(!cw.PrettyPrint, eq(cw.Builder, old(cw.Builder)))
 //@   ensures [no-mapping@C08] cw.Mapper == nil || sourcemap.NumMappings(cw.Mapper) == old(sourcemap.NumMappings(cw.Mapper))
+//@   ensures [request-kept@C08] cw.deferred == old(cw.deferred)
 
 // WriteString = flush the deferred layout, then the text (both through emit, which advances the mapper).
 //@ func (cw *CodeWriter) WriteString(s)
 //@   props C06 C08 C15 C01 C11
 //@   use cwFrame
-//@   ensures [mechanism@C06,C08] fullSeq(evCall("(*CodeWriter).flushPending"), evCall("(*CodeWriter).emit")) && callArg[string]("(*CodeWriter).emit", 0, 1) == s
+//@   ensures [mechanism@C06,C08] fullSeq(evCall("(*CodeWriter).flushPending"), evCall("(*CodeWriter).write")) && callArg[string]("(*CodeWriter).write", 0, 1) == s && callArg[bool]("(*CodeWriter).write", 0, 2)
 //@   ensures [flushed] len(cw.pendings) == 0 && cw.IndentLevel == old(cw.IndentLevel)
-//@   ensures [no-mapping@C08] cw.Mapper == nil || sourcemap.NumMappings(cw.Mapper) == old(sourcemap.NumMappings(cw.Mapper))
+//@   ensures [no-mapping@C08] implies(cw.Mapper != nil && !(len(s) > 0 && old(cw.deferred.set)), sourcemap.NumMappings(cw.Mapper) == old(sourcemap.NumMappings(cw.Mapper)))
+//@   ensures [recorded@C08] implies(cw.Mapper != nil && len(s) > 0 && old(cw.deferred.set), sourcemap.NumMappings(cw.Mapper) == old(sourcemap.NumMappings(cw.Mapper))+1 && pointsAt(cw, old(sourcemap.NumMappings(cw.Mapper)), old(cw.deferred)) && gposStr(startOf(cw, old(sourcemap.NumMappings(cw.Mapper))), s) == here(cw))
+//@   ensures [request-used@C08] implies(cw.Mapper != nil, !cw.deferred.set)
 
 // WriteRune is used for single ASCII characters other than carriage return.
 // WriteRune = flush the deferred layout, then the character; the mapper advances by one column or one line.
 //@ func (cw *CodeWriter) WriteRune(r)
 //@   props C06 C08 C15 C01 C11
 //@   use cwFrame
-//@   ensures [mechanism@C06,C08] fullSeq(evCall("(*CodeWriter).flushPending"), evCall("(*CodeWriter).separateSigns"), evOpt(cw.Mapper != nil && r == '\n', evCall("(*SourceMapper).AdvanceLine")), evOpt(cw.Mapper != nil && r != '\n', evCall("(*SourceMapper).AdvanceColumn")))
+//@   ensures [mechanism@C06,C08] fullSeq(evCall("(*CodeWriter).flushPending"), evCall("(*CodeWriter).separateSigns"), evCall("(*CodeWriter).commitMapping"), evOpt(cw.Mapper != nil && r == '\n', evCall("(*SourceMapper).AdvanceLine")), evOpt(cw.Mapper != nil && r != '\n', evCall("(*SourceMapper).AdvanceColumn")))
 //@   ensures [column@C08] implies(cw.Mapper != nil && r != '\n', callArg[int]("(*SourceMapper).AdvanceColumn", 0, 1) == 1)
 //@   ensures [written@C06] !cw.semiOmitted
 //@   requires [ascii] 0 <= r && r < 128 && r != '\r'
 //@   ensures [flushed] len(cw.pendings) == 0 && cw.IndentLevel == old(cw.IndentLevel)
-//@   ensures [no-mapping@C08] cw.Mapper == nil || sourcemap.NumMappings(cw.Mapper) == old(sourcemap.NumMappings(cw.Mapper))
+//@   ensures [no-mapping@C08] implies(cw.Mapper != nil && !old(cw.deferred.set), sourcemap.NumMappings(cw.Mapper) == old(sourcemap.NumMappings(cw.Mapper)))
+//@   ensures [recorded@C08] implies(cw.Mapper != nil && old(cw.deferred.set), sourcemap.NumMappings(cw.Mapper) == old(sourcemap.NumMappings(cw.Mapper))+1 && pointsAt(cw, old(sourcemap.NumMappings(cw.Mapper)), old(cw.deferred)) && gposByte(startOf(cw, old(sourcemap.NumMappings(cw.Mapper))), byte(r)) == here(cw))
+//@   ensures [request-used@C08] implies(cw.Mapper != nil, !cw.deferred.set)
 
 // The semicolon option decides only whether the terminator is written.
 //@ func (cw *CodeWriter) WriteSemi()
@@ -274,7 +312,7 @@ func cwInv(cw *CodeWriter) bool {
 //@   ensures [semi@C06] ncalls("(*CodeWriter).WriteRune") == ite(!cw.PrettyPrint || cw.WriteSemicolons, 1, 0) && implies(ncalls("(*CodeWriter).WriteRune") == 1, callArg[rune]("(*CodeWriter).WriteRune", 0, 1) == ';')
 //@   ensures [nothing@C06] implies(cw.PrettyPrint && !cw.WriteSemicolons, eq(cw.Builder, old(cw.Builder)) && eq(cw.pendings, old(cw.pendings)))
 //@   ensures [indent] cw.IndentLevel == old(cw.IndentLevel)
-//@   ensures [no-mapping@C08] cw.Mapper == nil || sourcemap.NumMappings(cw.Mapper) == old(sourcemap.NumMappings(cw.Mapper))
+//@   ensures [no-mapping@C08] implies(cw.Mapper != nil && !old(cw.deferred.set), sourcemap.NumMappings(cw.Mapper) == old(sourcemap.NumMappings(cw.Mapper)))
 //@   ensures [omitted@C06] cw.semiOmitted == (cw.PrettyPrint && !cw.WriteSemicolons)
 
 // RequireSemi writes the semicolon that was just left out, and only then.
@@ -285,7 +323,7 @@ func cwInv(cw *CodeWriter) bool {
 //@   ensures [nothing@C06] implies(!old(cw.semiOmitted), eq(cw.Builder, old(cw.Builder)) && eq(cw.pendings, old(cw.pendings)))
 //@   ensures [cleared@C06] !cw.semiOmitted
 //@   ensures [indent] cw.IndentLevel == old(cw.IndentLevel)
-//@   ensures [no-mapping@C08] cw.Mapper == nil || sourcemap.NumMappings(cw.Mapper) == old(sourcemap.NumMappings(cw.Mapper))
+//@   ensures [no-mapping@C08] implies(cw.Mapper != nil && !old(cw.deferred.set), sourcemap.NumMappings(cw.Mapper) == old(sourcemap.NumMappings(cw.Mapper)))
 
 //@ func (cw *CodeWriter) String()
 //@   props C06 C14 C11
@@ -321,34 +359,44 @@ func cwInv(cw *CodeWriter) bool {
 //@   ensures [pending@C06] implies(cw.PrettyPrint && (len(old(cw.pendings)) == 0 || old(cw.pendings)[len(old(cw.pendings))-1] != ' '), eq(cw.pendings, push(old(cw.pendings), ' ')))
 //@   ensures [pending.dedup@C06] implies(cw.PrettyPrint && len(old(cw.pendings)) > 0 && old(cw.pendings)[len(old(cw.pendings))-1] == ' ', eq(cw.pendings, old(cw.pendings)))
 
-// A mapping is recorded at the mapper's current generated position and points at the given source position.
+// A mapping is requested for the token about to be written; nothing is written and nothing recorded yet. Without a
+// mapper nothing changes at all (C14: requesting a source map never changes the generated code).
 //@ func (cw *CodeWriter) AddMapping(pos)
 //@   props C08 C06 C14 C11
-//@   use cwFrame
-//@   ensures [flush-first@C08,C14] ncalls("(*CodeWriter).flushPending") == 1 && callOrder("(*CodeWriter).flushPending", 0, "(*SourceMapper).AddMapping", 0)
-//@   ensures [indent] cw.IndentLevel == old(cw.IndentLevel)
-//@   ensures [recorded@C08] cw.Mapper == nil || (sourcemap.NumMappings(cw.Mapper) == old(sourcemap.NumMappings(cw.Mapper))+1 && sourcemap.MappingAt(cw.Mapper, old(sourcemap.NumMappings(cw.Mapper))).GeneratedLine == sourcemap.GenLine(cw.Mapper) && sourcemap.MappingAt(cw.Mapper, old(sourcemap.NumMappings(cw.Mapper))).GeneratedColumn == sourcemap.GenCol(cw.Mapper) && sourcemap.MappingAt(cw.Mapper, old(sourcemap.NumMappings(cw.Mapper))).SourceLine == pos.Line && sourcemap.MappingAt(cw.Mapper, old(sourcemap.NumMappings(cw.Mapper))).SourceColumn == pos.Column && !sourcemap.MappingAt(cw.Mapper, old(sourcemap.NumMappings(cw.Mapper))).HasName)
-//@   ensures [at-token@C08] len(cw.pendings) == 0
+//@   requires [cw] cw != nil
+//@   modifies cw.deferred
+//@   ensures [requested@C08] implies(cw.Mapper != nil, cw.deferred == deferredMapping{true, false, pos.Line, pos.Column, ""})
+//@   ensures [no-mapper@C14] implies(cw.Mapper == nil, cw.deferred == old(cw.deferred))
 
 //@ func (cw *CodeWriter) AddNamedMapping(sourceLine, sourceColumn, name)
 //@   props C08 C06 C14 C11
-//@   use cwFrame
-//@   ensures [flush-first@C08,C14] ncalls("(*CodeWriter).flushPending") == 1 && callOrder("(*CodeWriter).flushPending", 0, "(*SourceMapper).AddNamedMapping", 0)
-//@   ensures [indent] cw.IndentLevel == old(cw.IndentLevel)
-//@   ensures [recorded@C08] cw.Mapper == nil || (sourcemap.NumMappings(cw.Mapper) == old(sourcemap.NumMappings(cw.Mapper))+1 && sourcemap.MappingAt(cw.Mapper, old(sourcemap.NumMappings(cw.Mapper))).GeneratedLine == sourcemap.GenLine(cw.Mapper) && sourcemap.MappingAt(cw.Mapper, old(sourcemap.NumMappings(cw.Mapper))).GeneratedColumn == sourcemap.GenCol(cw.Mapper) && sourcemap.MappingAt(cw.Mapper, old(sourcemap.NumMappings(cw.Mapper))).SourceLine == sourceLine && sourcemap.MappingAt(cw.Mapper, old(sourcemap.NumMappings(cw.Mapper))).SourceColumn == sourceColumn && sourcemap.MappingAt(cw.Mapper, old(sourcemap.NumMappings(cw.Mapper))).HasName && sourcemap.NameAt(cw.Mapper, sourcemap.MappingAt(cw.Mapper, old(sourcemap.NumMappings(cw.Mapper))).NameIndex) == name)
-//@   ensures [at-token@C08] len(cw.pendings) == 0
+//@   requires [cw] cw != nil
+//@   modifies cw.deferred
+//@   ensures [requested@C08] implies(cw.Mapper != nil, cw.deferred == deferredMapping{true, true, sourceLine, sourceColumn, name})
+//@   ensures [no-mapper@C14] implies(cw.Mapper == nil, cw.deferred == old(cw.deferred))
+
+// commitMapping records the requested mapping at the mapper's cursor, once.
+//@ func (cw *CodeWriter) commitMapping()
+//@   props C08 C06 C14 C11
+//@   requires [cw] cw != nil && cwInv(cw) && J(cw)
+//@   modifies cw.deferred, cw.Mapper.mappings, cw.Mapper.names, cw.Mapper.nameIndex[*]
+//@   ensures [cwinv] cwInv(cw)
+//@   ensures [recorded@C08] implies(cw.Mapper != nil && old(cw.deferred.set), sourcemap.NumMappings(cw.Mapper) == old(sourcemap.NumMappings(cw.Mapper))+1 && pointsAt(cw, old(sourcemap.NumMappings(cw.Mapper)), old(cw.deferred)) && startOf(cw, old(sourcemap.NumMappings(cw.Mapper))) == here(cw))
+//@   ensures [only-requested@C08] implies(cw.Mapper != nil && !old(cw.deferred.set), sourcemap.NumMappings(cw.Mapper) == old(sourcemap.NumMappings(cw.Mapper)))
+//@   ensures [request-used@C08] implies(cw.Mapper != nil, !cw.deferred.set)
 
 // Comments: compact output contains none; in pretty mode every write is comment text, "//", a space, a line break or
 // indentation, and the next token starts on a fresh line.
 //@ func (cw *CodeWriter) WriteLeadingComments(comments)
 //@   props C15 C06 C08 C11
 //@   use cwFrame
-//@   loop 1 invariant [frame] cwInv(cw) && J(cw) && NoFusion(cw) && cw.IndentLevel == old(cw.IndentLevel) && cw.PrettyPrint && (cw.Mapper == nil || sourcemap.NumMappings(cw.Mapper) == old(sourcemap.NumMappings(cw.Mapper)))
+//@   loop 1 invariant [frame] cwInv(cw) && J(cw) && NoFusion(cw) && cw.IndentLevel == old(cw.IndentLevel) && cw.PrettyPrint && (cw.Mapper == nil || sourcemap.NumMappings(cw.Mapper) == old(sourcemap.NumMappings(cw.Mapper))) && cw.deferred == old(cw.deferred)
 //@   ensures [compact.none@C15] implies(!cw.PrettyPrint, eq(cw.Builder, old(cw.Builder)) && len(cw.pendings) == 0)
 //@   ensures [empty.none@C15] implies(len(comments) == 0, eq(cw.Builder, old(cw.Builder)) && eq(cw.pendings, old(cw.pendings)))
 //@   ensures [fresh-line@C15] implies(cw.PrettyPrint && len(comments) > 0, len(cw.pendings) == 2 && cw.pendings[0] == '\n' && cw.pendings[1] == '\t')
 //@   ensures [indent] cw.IndentLevel == old(cw.IndentLevel)
 //@   ensures [no-mapping@C08] cw.Mapper == nil || sourcemap.NumMappings(cw.Mapper) == old(sourcemap.NumMappings(cw.Mapper))
+//@   ensures [request-kept@C08] cw.deferred == old(cw.deferred)
 
 // ---- printers ----
 // Every node prints through the code writer only. The [syntax] clauses state, as the exact sequence of writer calls
